@@ -618,6 +618,47 @@ C15_NoLasso ==
     \A a, b \in 1..Len(hist) : (a < b /\ hist[a].canon = hist[b].canon) => EvictionsBetween(a, b) = 0
 
 (***************************************************************************)
+(* C14 (snapshot construction): the accounting of the freshly opened        *)
+(* session equals the truth recomputed from the API objects of the cycle    *)
+(* start. Nodes: Idle / Used / Releasing in cpu and memory, idle and        *)
+(* releasing whole GPU devices. Queues: allocated gpu / cpu / memory and    *)
+(* non-preemptible gpu up the ancestor chain. Judged in the state right     *)
+(* after the QueueInfo event (no decision taken yet).                       *)
+(***************************************************************************)
+AtSessionOpen == qi # <<>> /\ D = <<>> /\ "n" \in DOMAIN qi
+Terminating(n) == {p \in Occupants(n) : S[p].st = "terminating"}
+\* a group's device is releasing when every pod of the group on the node is terminating
+GroupsReleasing(n) == {g \in GroupsOfOccupants(n) :
+                        \A p \in Occupants(n) : (IsSharing(p) /\ g \in SeqToSet(S[p].groups)) => S[p].st = "terminating"}
+C14_SnapshotNodeCpu ==
+  AtSessionOpen => \A n \in Nodes : qi.n[n].present = 1 =>
+    /\ qi.n[n].uc = Sum(Occupants(n), EffCpu)
+    /\ qi.n[n].ic = N(n).cpu - Sum(Occupants(n), EffCpu)
+    /\ qi.n[n].rc = Sum(Terminating(n), EffCpu)
+C14_SnapshotNodeMem ==
+  AtSessionOpen => \A n \in Nodes : qi.n[n].present = 1 =>
+    /\ qi.n[n].um = Sum(Occupants(n), LAMBDA p : P(p).mem)
+    /\ qi.n[n].im = N(n).mem - Sum(Occupants(n), LAMBDA p : P(p).mem)
+    /\ qi.n[n].rm = Sum(Terminating(n), LAMBDA p : P(p).mem)
+\* the node holds exactly the occupying workload pods and the reservation pods
+C14_SnapshotNodePods ==
+  AtSessionOpen => \A n \in Nodes : qi.n[n].present = 1 =>
+    qi.n[n].np = Cardinality(Occupants(n)) + Cardinality({i \in 1..Len(resv) : resv[i].n = n})
+C14_SnapshotNodeGpu ==
+  AtSessionOpen => \A n \in Nodes : qi.n[n].present = 1 =>
+    /\ qi.n[n].ig = 1000 * (N(n).gpus - Sum(Occupants(n), Whole) - Cardinality(GroupsOfOccupants(n)))
+    /\ qi.n[n].rg = 1000 * (Sum(Terminating(n), Whole) + Cardinality(GroupsReleasing(n)))
+\* the scheduler accounts the portion of a shared-GPU pod in 1/100 GPU (rounded half up)
+Centi(m) == ((m + 5) \div 10) * 10
+AccGpu(q, np) == Sum({p \in ChargedAfter(0) : InSubtree(p, q) /\ (np => J(JobOf(p)).preempt = 0)}, LAMBDA p : Centi(GpuMilli(p)))
+C14_SnapshotQueues ==
+  AtSessionOpen => \A q \in Queues : qi.q[q].present = 1 =>
+    /\ qi.q[q].allocG = AccGpu(q, FALSE)
+    /\ qi.q[q].allocC = QCpu(q, 0, FALSE)
+    /\ qi.q[q].allocM = QMem(q, 0, FALSE)
+    /\ qi.q[q].npG = AccGpu(q, TRUE)
+
+(***************************************************************************)
 (* C10 (observed here too): a cycle never panics                           *)
 (***************************************************************************)
 C10_NoPanic == panic = ""
